@@ -375,6 +375,7 @@ func familyLimiter(t *testing.T) {
 	rng := T.rng
 	synctest.Test(t, func(t *testing.T) {
 		defer guard()
+		configGate()
 		// limits that divide one second evenly and limits that do not (in milliseconds: 37, 150, 600; 1500 is above one per millisecond)
 		limits := []int{10, 37, 100, 1000, 150, 1500, 600}
 		nScen := T.size(21, 84)
